@@ -22,9 +22,9 @@ def allTargetsName : List String := ["all"]
 def parentLits : List String := ["#", "_"]
 def originalTarget : List String := ["", "_ORIGINAL"]
 def includesSlash : Bool := true
-def matchesSlash : Bool := false
+def matchesSlash : Bool := true
 def matchesDot : Bool := true
-def matchesLits : List String := [".", "...", "all"]
+def matchesLits : List String := ["", ".", "...", "/", "all"]
 def matchesUsesParent : Bool := true
 def isExperimentalUsesIncludes : Bool := true
 def isExperimentalChecksSubrepo : Bool := true
